@@ -14,8 +14,9 @@ Three layers take a value across the boundary of C bindings:
    canonical layout: `c_layout_eq_canonical` (all supported types, both pointer widths), with the
    boundary of the claim shown by `c_layout_flags64_differs`;
 3. the C signature layer (`print_sig`, `classify_ret`, `is_arg_by_pointer`, out-pointers, `bool`
-   returns, `--no-sig-flattening`): `c_sig_*` — the C signature carries exactly the WIT parameters
-   and the WIT result.
+   returns, `--no-sig-flattening`): `c_sig_*` — the *shape* of the C signature (model `CSig`, compared
+   with every generated prototype) has exactly one slot per WIT parameter plus the out-pointers, and
+   the calling convention over that shape (formalised here, `CSigSpec`) is lossless.
 
 Tie: `./check C10` runs the REAL generator, compiles the bindings natively, and lets the Lean
 canonical ABI (`Spec`) act as the host (`m_chost`); the header's prototypes are compared with
@@ -40,18 +41,23 @@ theorem c_sig_param_kind (flat : Bool) (j : Nat) (s : Shape) :
     paramOf flat j s = .byValue j ∨ paramOf flat j s = .byPointer j ∨ paramOf flat j s = .maybe j :=
   paramOf_kind flat j s
 
-/-- **Parameters are carried exactly.**  For every parameter list, every flattening mode and all
-argument values (options being `none`/`some v`): passing the arguments through the C parameters and
-reading them back on the other side yields the same values, in the same order. -/
+/-- **The parameter convention is lossless.**  `passOne`/`recvOne` (Abi/CSig.lean, `CSigSpec`) are this
+framework's formalisation of the C calling convention the header documents (by value / pointer to the
+value / `NULL`-or-pointer-to-payload) — they are *not* extracted from emitted code.  The theorem says
+that this convention, applied to the parameter kinds `print_sig_params` chooses, loses nothing: for
+every parameter list, flattening mode and argument values (options being `none`/`some v`), decoding
+what was encoded yields the same values in the same order.  That the emitted wrappers actually follow
+the convention (`*ret = …`, `maybe_x ? … : NULL`, …) is covered by native value execution only. -/
 theorem c_sig_carries_params (flat : Bool) (ps : List Shape) (vs : List Val)
     (h : paramsOk ps vs = true) :
     ∃ as, passAll (paramsFrom flat 0 ps) vs = some as ∧ recvAll (paramsFrom flat 0 ps) as = some vs :=
   carries_params flat ps 0 vs h
 
-/-- **The result is carried exactly.**  For every result type shape (including aliases of options
-and results, results without `ok`/`err` payloads, and `--no-sig-flattening`) and every well-shaped
-result value: what the callee hands back through the C return value and the out-pointers is read
-back by the caller as the same WIT value. -/
+/-- **The result convention is lossless.**  Same reading as above for `passResult`/`recvResult`
+(C return value + out-pointer writes, framework-defined): for every result shape chosen by
+`classify_ret` (aliases of options and results, results without payloads, `--no-sig-flattening`) and
+every well-shaped result value, decoding the encoded result gives the same WIT value.  The emitted
+`*ret` / `*err` stores and `return` statements are covered by native value execution only. -/
 theorem c_sig_carries_result (flat : Bool) (r : Option Shape) (res : Option Val)
     (h : resultOptOk r res = true) :
     ∃ b, passResult (classifyRet flat r) res = some b ∧ recvResult (classifyRet flat r) b = some res :=
@@ -123,8 +129,7 @@ def cImportCfg : Cfg := ⟨allBitsValid, false⟩
 /-- **C export results / import arguments are lowered per the spec** (memory-free types; corollary
 of `C01.lower_flat_correct` at the C configurations).  For types that need linear memory the C
 emitter passes `ptr`/`len` of the C array, whose bytes are the canonical bytes by
-`c_layout_eq_canonical`; the generic in-memory theorems of C01 are still `_partial` there (see
-`c_memory_types_partial`). -/
+`c_layout_eq_canonical`; for the in-memory direction see `c_lift_from_c_laid_out_area_partial`. -/
 theorem c_lower_flat_correct (p : Nat) (hp : p = 4 ∨ p = 8) (imp : Bool) (t : Ty) (v : Val)
     (hm : memFree t = true) (hv : Spec.hasTy t v = true)
     (lvl : Nat) (x : Expr) (env : Env) (m : Spec.Mem) (st : Spec.St) (ss : List Stmt) (es : List Expr)
@@ -140,41 +145,80 @@ theorem c_wasm_sig_flat_iff (v : Variant) (f : Func) :
       decide ((flattenList f.params).length > (if v = .guestImportAsync then 4 else 16)) :=
   Witverif.Props.C02.params_flat_iff v f
 
-/-- `_partial`: what is still missing for the full `c_export_roundtrip` / `c_import_roundtrip`
-("lift (lower v) = v through `Gen.call` at the C profile for *every* type") is the generic C01
-statement for memory-carrying types.  Given that statement as a hypothesis the C profile needs
-nothing else: its list handling is the identity on canonical memory (`c_layout_eq_canonical`), so
-the composite is the spec's `load ∘ store`.  The missing generic theorem is named here explicitly. -/
+/-- The one generic statement still missing in C01 (named hypothesis of the `_partial` theorems
+below): the *specification's* own `load ∘ store` round trip for every type.  (C01 proves that the
+generator's memory code equals `Spec.store` / `Spec.load` — `store_correct_all`, `load_correct` — but
+not yet that the spec round-trips with itself for memory-carrying types.) -/
 def C01_store_load_roundtrip_stmt : Prop :=
   ∀ (p : Nat) (t : Ty) (v : Val) (a : Nat) (st : Spec.St), (p = 4 ∨ p = 8) → Spec.hasTy t v = true →
     a % alignment p t = 0 → a + elemSize p t ≤ st.heap.next →
     Spec.load p (Spec.store p t v a st).mem t a = some v
 
-theorem c_memory_types_partial (h : C01_store_load_roundtrip_stmt) (p : Nat) (hp : p = 4 ∨ p = 8)
-    (t : Ty) (v : Val) (hs : cSupported t = true) (hf : flagsLe32 t = true)
-    (hv : Spec.hasTy t v = true) (a : Nat) (st : Spec.St)
-    (ha : a % (cSA p t).2 = 0) (hb : a + (cSA p t).1 ≤ st.heap.next) :
-    Spec.load p (Spec.store p t v a st).mem t a = some v := by
-  rw [c_layout_eq_canonical p hp t hs hf] at ha hb
-  exact h p t v a st hp hv ha hb
+/-- The named hypothesis is not vacuous: it holds (by evaluation) at a concrete memory-carrying type,
+`record { a: string, b: list<u16>, c: option<string> }` with `("hi", [1, 2], some "x")`, both widths. -/
+example :
+    Spec.load 4 (Spec.store 4 (.record [.string, .list .u16, .option .string])
+        (.record [.str [104, 105], .list [.int 1, .int 2], .variant 1 (some (.str [120]))]) 16 { mem := [], heap := { next := 64 } }).mem
+      (.record [.string, .list .u16, .option .string]) 16
+      = some (.record [.str [104, 105], .list [.int 1, .int 2], .variant 1 (some (.str [120]))]) ∧
+    Spec.load 8 (Spec.store 8 (.record [.string, .list .u16, .option .string])
+        (.record [.str [104, 105], .list [.int 1, .int 2], .variant 1 (some (.str [120]))]) 16 { mem := [], heap := { next := 128 } }).mem
+      (.record [.string, .list .u16, .option .string]) 16
+      = some (.record [.str [104, 105], .list [.int 1, .int 2], .variant 1 (some (.str [120]))]) :=
+  ⟨rfl, rfl⟩
 
-/-- `c_export_roundtrip` (`_partial`): an export's parameter record stored by the host at an address
-aligned and sized by the *C* layout of the parameter tuple is read back by the bindings (which read
-linear memory through the C structs) as the same values — given the named C01 statement. -/
-theorem c_export_roundtrip_partial (h : C01_store_load_roundtrip_stmt) (p : Nat) (hp : p = 4 ∨ p = 8)
-    (params : List Ty) (vs : List Val) (hs : cSupportedAll params = true) (hf : flagsLe32All params = true)
-    (hv : Spec.hasTy (.tuple params) (.record vs) = true) (a : Nat) (st : Spec.St)
-    (ha : a % (cSA p (.tuple params)).2 = 0) (hb : a + (cSA p (.tuple params)).1 ≤ st.heap.next) :
-    Spec.load p (Spec.store p (.tuple params) (.record vs) a st).mem (.tuple params) a = some (.record vs) :=
-  c_memory_types_partial h p hp (.tuple params) (.record vs) (by simpa [cSupported] using hs)
-    (by simpa [flagsLe32] using hf) hv a st ha hb
+/-- **What the generated lifting code reads from an area laid out the C way** (`_partial`: one named
+hypothesis).  Let a host store `v : t` with the spec's `store` at an address that is aligned and has
+room according to the *C* layout of `t` (`cSA`: what `ret_area[…]`/`RET_AREA`/the parameter record are
+declared with).  Then the expression `read_from_memory` builds for `t` under the given backend
+configuration — the very stream the C `FunctionBindgen` interprets for import results and indirect
+export parameters — evaluates in the reference machine to `v`.  Uses `C01.load_correct` (generated
+code = `Spec.load`, all types) and `c_layout_eq_canonical` (C layout = canonical layout); the remaining
+gap is the spec-level round trip, taken as the named hypothesis.  Not covered by this theorem: that
+the C *text* emitted for each instruction means what the reference machine says (validated by native
+execution only), and that the C emitter may skip the element block of list lifts (that is
+`c_layout_eq_canonical`). -/
+theorem c_lift_from_c_laid_out_area_partial (h : C01_store_load_roundtrip_stmt) (p : Nat) (hp : p = 4 ∨ p = 8)
+    (c : Cfg) (t : Ty) (v : Val) (hs : cSupported t = true) (hf : flagsLe32 t = true) (hv : Spec.hasTy t v = true)
+    (lvl : Nat) (a : Expr) (off : Off) (env : Env) (addr : Nat) (st : Spec.St) (e : Expr)
+    (hp' : env.p = p) (hl : env.frames.length = lvl + 1)
+    (ha : AddrStable env (Spec.store p t v (addr + off.at p) st).mem a addr)
+    (hal : (addr + off.at p) % (cSA p t).2 = 0) (hb : addr + off.at p + (cSA p t).1 ≤ st.heap.next)
+    (he : load c lvl t a off = .ok e) :
+    ∀ ls, eval (env.withLets ls) (Spec.store p t v (addr + off.at p) st).mem e = some (.v v) := by
+  intro ls
+  rw [c_layout_eq_canonical p hp t hs hf] at hal hb
+  rw [Witverif.Props.C01.load_correct p hp c t lvl a off env _ addr e hp' hl ha he ls,
+    h p t v (addr + off.at p) st hp hv hal hb]
+  rfl
 
-/-- `c_import_roundtrip` (`_partial`): the result a host stores into the import wrapper's `ret_area`
-(declared with the C layout's size and alignment) is lifted by the bindings as the same value. -/
+/-- `c_import_roundtrip` (`_partial`): the import wrapper's lifting code (C import configuration)
+applied to a result the host stored into a `ret_area` with the C layout's size and alignment. -/
 theorem c_import_roundtrip_partial (h : C01_store_load_roundtrip_stmt) (p : Nat) (hp : p = 4 ∨ p = 8)
     (r : Ty) (v : Val) (hs : cSupported r = true) (hf : flagsLe32 r = true) (hv : Spec.hasTy r v = true)
-    (a : Nat) (st : Spec.St) (ha : a % (cSA p r).2 = 0) (hb : a + (cSA p r).1 ≤ st.heap.next) :
-    Spec.load p (Spec.store p r v a st).mem r a = some v :=
-  c_memory_types_partial h p hp r v hs hf hv a st ha hb
+    (lvl : Nat) (a : Expr) (off : Off) (env : Env) (addr : Nat) (st : Spec.St) (e : Expr)
+    (hp' : env.p = p) (hl : env.frames.length = lvl + 1)
+    (ha : AddrStable env (Spec.store p r v (addr + off.at p) st).mem a addr)
+    (hal : (addr + off.at p) % (cSA p r).2 = 0) (hb : addr + off.at p + (cSA p r).1 ≤ st.heap.next)
+    (he : load cImportCfg lvl r a off = .ok e) :
+    ∀ ls, eval (env.withLets ls) (Spec.store p r v (addr + off.at p) st).mem e = some (.v v) :=
+  c_lift_from_c_laid_out_area_partial h p hp cImportCfg r v hs hf hv lvl a off env addr st e hp' hl ha hal hb he
+
+/-- `c_export_roundtrip` (`_partial`): the export wrapper's lifting code (C export configuration)
+applied to the parameter record (as the tuple of the parameter types) the host stored for an
+indirect call. -/
+theorem c_export_roundtrip_partial (h : C01_store_load_roundtrip_stmt) (p : Nat) (hp : p = 4 ∨ p = 8)
+    (params : List Ty) (vs : List Val) (hs : cSupportedAll params = true) (hf : flagsLe32All params = true)
+    (hv : Spec.hasTy (.tuple params) (.record vs) = true)
+    (lvl : Nat) (a : Expr) (off : Off) (env : Env) (addr : Nat) (st : Spec.St) (e : Expr)
+    (hp' : env.p = p) (hl : env.frames.length = lvl + 1)
+    (ha : AddrStable env (Spec.store p (.tuple params) (.record vs) (addr + off.at p) st).mem a addr)
+    (hal : (addr + off.at p) % (cSA p (.tuple params)).2 = 0)
+    (hb : addr + off.at p + (cSA p (.tuple params)).1 ≤ st.heap.next)
+    (he : load cExportCfg lvl (.tuple params) a off = .ok e) :
+    ∀ ls, eval (env.withLets ls) (Spec.store p (.tuple params) (.record vs) (addr + off.at p) st).mem e
+      = some (.v (.record vs)) :=
+  c_lift_from_c_laid_out_area_partial h p hp cExportCfg (.tuple params) (.record vs)
+    (by simpa [cSupported] using hs) (by simpa [flagsLe32] using hf) hv lvl a off env addr st e hp' hl ha hal hb he
 
 end Witverif.Props.C10
